@@ -225,6 +225,8 @@ func ruleNodeLayer(c *Ctx) {
 						c.r.ok("R24", base+" released after the slot is relinked", m.pos(call.Pos()), "release helper: the relink is required at each of its call sites", append(props, "C11")...)
 					} else if relinked {
 						c.r.ok("R24", base+" released after the slot is relinked", m.pos(call.Pos()), "*ref = … precedes the release", append(props, "C11")...)
+					} else if why := c.detachedAtCallSites(u, xv); why != "" {
+						c.r.ok("R24", base+" released after the slot is relinked", m.pos(call.Pos()), why, append(props, "C11")...)
 					} else {
 						c.r.bad("R24", base+" released after the slot is relinked", m.pos(call.Pos()), "the node is released while the tree's slot may still reference it", append(props, "C11")...)
 					}
@@ -887,10 +889,25 @@ func ruleNodeLayer(c *Ctx) {
 		treeStruct[tk.Named.Obj()] = tk
 	}
 	nW := 0
+	writtenLater := map[string]bool{} // tree.field written (or its address taken) outside constructors and options
 	for _, u := range c.sortedUnits() {
 		base := u.Name
 		if i := strings.IndexByte(base, '$'); i >= 0 {
 			base = base[:i]
+		}
+		if u.Recv != "" {
+			ast.Inspect(u.Body, func(n ast.Node) bool {
+				if ue, ok := n.(*ast.UnaryExpr); ok && ue.Op == token.AND {
+					if sel, ok := ast.Unparen(ue.X).(*ast.SelectorExpr); ok && info.Selections[sel] != nil {
+						if nt := namedOf(info.TypeOf(sel.X)); nt != nil {
+							if tk, isTree := treeStruct[nt.Obj()]; isTree {
+								writtenLater[tk.Name+"."+sel.Sel.Name] = true
+							}
+						}
+					}
+				}
+				return true
+			})
 		}
 		ownerOK := func() bool {
 			if u.Recv != "" {
@@ -975,6 +992,9 @@ func ruleNodeLayer(c *Ctx) {
 								key := fmt.Sprintf("%s writes tree field %s.%s", u.Name, tk.Name, y.Sel.Name)
 								okField := y.Sel.Name == "root" || y.Sel.Name == c.sizeField(tk)
 								isOpt := u.Recv == "" // constructors / options
+								if !isOpt {
+									writtenLater[tk.Name+"."+y.Sel.Name] = true
+								}
 								switch {
 								case okField && (strings.HasSuffix(base, ".Insert") || strings.HasSuffix(base, ".Delete")):
 									c.r.ok("R25", key, m.pos(lhs.Pos()), "tree state is {root, size}, written by Insert/Delete", "C12", "C15")
@@ -1007,15 +1027,23 @@ func ruleNodeLayer(c *Ctx) {
 	// tree structs have exactly the fields {root, codec, size}
 	for _, tk := range m.Trees {
 		st := tk.Named.Underlying().(*types.Struct)
-		var extra []string
+		var extra, config []string
 		for i := 0; i < st.NumFields(); i++ {
 			f := st.Field(i).Name()
 			if f != "root" && f != c.sizeField(tk) && f != tk.CodecField {
+				// a field that only constructors and options write is configuration, not state
+				if !writtenLater[tk.Name+"."+f] {
+					config = append(config, f)
+					continue
+				}
 				extra = append(extra, f)
 			}
 		}
 		key := tk.Name + " state is {root, size, codec}"
-		if len(extra) == 0 {
+		if len(extra) == 0 && len(config) > 0 {
+			sort.Strings(config)
+			c.r.ok("R25", key, tk.File, "further fields "+strings.Join(config, ", ")+": written by constructors and options only (configuration, fixed for the life of the tree)", "C12", "C15", "C16")
+		} else if len(extra) == 0 {
 			c.r.ok("R25", key, tk.File, "no further fields", "C12", "C15", "C16")
 		} else {
 			sort.Strings(extra)
@@ -1063,6 +1091,14 @@ func ruleNodeLayer(c *Ctx) {
 									if _, ok := stack[len(stack)-4].(*ast.CallExpr); ok {
 										okUse = true
 									}
+								}
+							}
+						}
+						// a pool that is not a table: Ident ← SelectorExpr(Get/Put) ← CallExpr
+						if len(stack) >= 3 && !okUse {
+							if se, ok := stack[len(stack)-2].(*ast.SelectorExpr); ok && (se.Sel.Name == "Get" || se.Sel.Name == "Put") && se.X == ast.Expr(id) {
+								if _, ok := stack[len(stack)-3].(*ast.CallExpr); ok {
+									okUse = true
 								}
 							}
 						}
@@ -1134,4 +1170,109 @@ func ruleNodeLayer(c *Ctx) {
 		}
 	}
 	c.r.floor("R30", 1, "package variables", "C16")
+}
+
+// detachedAtCallSites: u releases the nodes of a whole subtree it receives BY VALUE (a nodeRef
+// parameter, no slot pointer): the slot that referenced the subtree must have been overwritten
+// by the caller. Every call site passes a local copy of a slot and assigns that slot between the
+// copy and the call. Returns the justification, or "".
+func (c *Ctx) detachedAtCallSites(u *FuncUnit, xv *types.Var) string {
+	m := c.m
+	info := m.Info
+	if u.Decl == nil || u.Lit != nil || u.Recv != "" || u.Decl.Type.Params == nil {
+		return ""
+	}
+	pi, k := -1, 0
+	for _, f := range u.Decl.Type.Params.List {
+		t := info.TypeOf(f.Type)
+		for range f.Names {
+			if _, isPtr := t.(*types.Pointer); isPtr && c.isNodeRefType(t.(*types.Pointer).Elem()) {
+				return "" // it has the slot: it must relink itself
+			}
+			if c.isNodeRefType(t) {
+				if pi >= 0 {
+					return ""
+				}
+				pi = k
+			}
+			k++
+		}
+	}
+	if pi < 0 {
+		return ""
+	}
+	// the released object is a typed view of X.pointer, X a local reference (popped from the
+	// worklist that the parameter seeds)
+	def := singleDef(info, u.Body, xv)
+	if def == nil {
+		return ""
+	}
+	e := ast.Unparen(def)
+	for {
+		call, ok := e.(*ast.CallExpr)
+		if !ok || !isConversion(info, call) || len(call.Args) != 1 {
+			break
+		}
+		e = ast.Unparen(call.Args[0])
+	}
+	sel, ok := e.(*ast.SelectorExpr)
+	if !ok || !c.isNodeRefType(info.TypeOf(sel.X)) {
+		return ""
+	}
+	if xid, ok := ast.Unparen(sel.X).(*ast.Ident); !ok || identVar(info, xid) == nil {
+		return ""
+	}
+	sites := c.callSitesOf(u)
+	if len(sites) == 0 {
+		return ""
+	}
+	for _, s := range sites {
+		a := argFor(s.call, pi)
+		v := identVar(info, a)
+		if v == nil || v.IsField() {
+			return ""
+		}
+		slot := singleDef(info, s.u.Body, v)
+		if slot == nil {
+			return ""
+		}
+		slotText := exprText(ast.Unparen(slot))
+		if _, isSel := ast.Unparen(slot).(*ast.SelectorExpr); !isSel {
+			if _, isStar := ast.Unparen(slot).(*ast.StarExpr); !isStar {
+				return ""
+			}
+		}
+		// the block that holds the call: an assignment to the slot precedes the call in it, after
+		// the copy was taken
+		detached := false
+		ast.Inspect(s.u.Body, func(n ast.Node) bool {
+			bs, ok := n.(*ast.BlockStmt)
+			if !ok {
+				return true
+			}
+			ci := -1
+			for i, st := range bs.List {
+				if es, ok := st.(*ast.ExprStmt); ok && es.X == ast.Expr(s.call) {
+					ci = i
+				}
+			}
+			if ci < 0 {
+				return true
+			}
+			for _, st := range bs.List[:ci] {
+				if as, ok := st.(*ast.AssignStmt); ok && as.Tok == token.ASSIGN && as.Pos() > v.Pos() {
+					for _, l := range as.Lhs {
+						if exprText(ast.Unparen(l)) == slotText {
+							detached = true
+						}
+					}
+				}
+			}
+			return true
+		})
+		if !detached {
+			return ""
+		}
+	}
+	return fmt.Sprintf("%s receives the subtree by value: at each of its %d call sites the argument is a copy of a slot that is overwritten before the call (the subtree is detached first)", u.Name, len(sites))
 }
